@@ -32,7 +32,7 @@ ASSUMPTIONS = [
     'invalid fragment (removed by --no_rejects) = R1 absent/unmapped, pre-set qc-fail, or (nla) R1 without CATG: generator label, cross-checked against the default run',
 ]
 COMPONENTS = {'real': tc.TAGGER_REAL, 'stub': tc.TAGGER_STUB}
-REQUIRED_PROBES = ['multiprocess_lifetime', 'delivery_order_not_submission_order', 'small_group_and_large_contig', 'unplaced_reads', 'no_rejects_run', 'invalid_fragment_present', 'orphan_or_halfmapped', 'empty_contig']
+REQUIRED_PROBES = ['index_stale', 'index_missing', 'contig_with_only_placed_unmapped_reads', 'multiprocess_lifetime', 'delivery_order_not_submission_order', 'small_group_and_large_contig', 'unplaced_reads', 'no_rejects_run', 'invalid_fragment_present', 'orphan_or_halfmapped', 'empty_contig']
 
 
 def plan(tier):
@@ -70,7 +70,24 @@ def generate(seed, tier):
         if not any(g[1] < tw.SMALL and any(f['ctg'] == i for f in frags) for i, g in enumerate(genome[:-1])):
             genome[0][1] = min(genome[0][1], 99000) if all(f['site'] + f['L'] + 50 < 99000 for f in frags if f['ctg'] == 0) else genome[0][1]
         force_nr = True
-    params = {'method': method, 'encoded': w.random() < 0.7, 'lib': w.choice(['LIB', 'my-lib_1'])}
+    if w.random() < 0.15 and frags:
+        # a contig whose only records are flagged unmapped but placed on it (idxstats: mapped 0, unmapped > 0)
+        ci = w.randrange(len(genome))
+        mine = [f for f in frags if f['ctg'] == ci]
+        if not mine:
+            o = dict(w.choice(frags))
+            clen = genome[ci][1]
+            o.update({'n': 1000 + len(frags), 'ctg': ci, 'L': min(o['L'], clen // 3), 'extra': None, 'clip': 0})
+            o['site'] = w.randint(o['L'] + 8, clen - o['L'] - 8)
+            frags.append(o)
+            mine = [o]
+        for f in mine:
+            f['defect'] = 'placed_unmapped'
+            f['extra'] = None
+            f['clip'] = 0
+    params = {'method': method, 'encoded': w.random() < 0.7, 'lib': w.choice(['LIB', 'my-lib_1']),
+              # state of the input's index when the tagger starts: fresh, missing, or left over from an earlier version of the file (N seconds older)
+              'index_state': weighted(w, [(None, 6), (['missing'], 1), (['stale', w.choice([1, 5, 30, 59, 61, 3600])], 2)])}
     s = st.schedule
     modes = [{'mp': False, 'name': 'single'},
              {'mp': True, 'name': 'multi', 'width': s.randint(1, 4), 'schedule': {'policy': 'seeded'}, 'seed': seed}]
@@ -121,6 +138,10 @@ def execute(case):
             probe('orphan_or_halfmapped')
         if len(seq) < len(case['genome']):
             probe('empty_contig')
+        if p.get('index_state'):
+            probe('index_' + p['index_state'][0])
+        if any(f.get('defect') == 'placed_unmapped' for f in case['workload']):
+            probe('contig_with_only_placed_unmapped_reads')
         invalid_ids = {f['n'] for f in case['workload'] if lib.invalid_for(f, p['method'])}
         halfmapped_r2 = {f['n'] for f in case['workload'] if f.get('defect') == 'r2unmapped'}
         if invalid_ids:
@@ -128,6 +149,8 @@ def execute(case):
         outs = {}
         for mi, mode in enumerate(case['modes']):
             name = mode['name']
+            if p.get('index_state') and mi > 0:
+                tc.write_input(d, case)        # every lifetime starts from the same durable state (the previous one repaired the index)
             if mode.get('real_pool'):
                 # observational fidelity check: forking real workers from a process that already runs htslib helper threads can dead-lock;
                 # that is not a property verdict and must not fail the check
